@@ -12,7 +12,8 @@ RULE = ("four sub-monitors driven through context_wrap: (cmd) a recording Comman
         "ever observed is recorded; (search) TextFileOutput get / in / keep_scan / last_scan / token_scan against a "
         "ten-line model on lines with ids; (time) LogFileOutput.get_after on logs rendered from a true timeline in four "
         "format shapes (with year, syslog without year, list, dict) with continuation lines, search terms and query times "
-        "on / just before / just after a stamp, year-less logs within +-30 days across 31 Dec/1 Jan; one evaluation = one "
+        "on / just before / just after a stamp, year-less logs across 31 Dec/1 Jan up to 1 s inside the edge of the documented "
+        "330-day rule; one evaluation = one "
         "parser construction or query; non-trivial = the input has >= 2 lines and both outcomes are possible; distinct by "
         "case hash")
 ASSUMPTIONS = [
